@@ -166,6 +166,9 @@ func (c *controller) exit(t *thread) {
 	n.wake <- struct{}{}
 }
 
+// Point is a scheduling point placed by the build overlay before a message is queued for a client.
+func Point() { point() }
+
 // point is a scheduling point before a synchronisation operation.
 func point() {
 	c := &ctl
